@@ -51,6 +51,7 @@ type mockChain struct {
 	db       ethdb.Database
 	logger   *log.Logger
 	cur      *types.WorkObject
+	posted   *types.WorkObject // last head announced (nil: none since creation)
 	blocks   map[common.Hash]*types.WorkObject
 	states   map[common.Hash]*ChainState // by EVM root
 	feed     event.Feed
@@ -99,6 +100,7 @@ func (c *mockChain) setHead(b *types.WorkObject) {
 	c.headMu.Lock()
 	c.mu.Lock()
 	c.cur = b
+	c.posted = b
 	c.mu.Unlock()
 	c.feed.Send(core.ChainHeadEvent{Block: b})
 	c.headMu.Unlock()
@@ -108,6 +110,12 @@ func (c *mockChain) head() *types.WorkObject {
 	c.mu.Lock()
 	defer c.mu.Unlock()
 	return c.cur
+}
+
+func (c *mockChain) lastPosted() *types.WorkObject {
+	c.mu.Lock()
+	defer c.mu.Unlock()
+	return c.posted
 }
 
 func (c *mockChain) stateOf(b *types.WorkObject) *ChainState {
